@@ -28,8 +28,9 @@ def make_vectorizable(func: callable, backend: str):
     module = _module_from_backend(backend)
     tree = _make_vectorizable_ast(func, module=module)
 
-    # recreate scope of function and add array library
-    scope = func.__globals__
+    # recreate scope of function and add array library; work on a copy so that neither the
+    # array library nor the redefined function is written into the module of `func`
+    scope = dict(func.__globals__)
     scope[module] = import_module(module)
 
     # execute new ast
